@@ -31,6 +31,7 @@ from pathlib import Path
 
 from src.core.base import BaseLintContext, BaseLintRule
 from src.core.constants import HEADER_SCAN_LINES, IgnoreDirective, Language
+from src.core.linter_utils import project_relative_path
 from src.core.types import Severity, Violation
 from src.linter_config.ignore import get_ignore_parser
 from src.linter_config.rule_matcher import rule_matches
@@ -149,7 +150,8 @@ class CollectionPipelineRule(BaseLintRule):  # thailint: ignore[srp,dry]
         if not context.file_path:
             return False
 
-        file_path = Path(context.file_path)
+        # Ignore patterns name places inside the project, however the path was spelled
+        file_path = Path(project_relative_path(context))
         return any(self._matches_pattern(file_path, pattern) for pattern in config.ignore)
 
     def _matches_pattern(self, file_path: Path, pattern: str) -> bool:
